@@ -323,27 +323,127 @@ def tree_depth(t):
     return 1 + tree_depth(t[1])
 
 
+def neg_const_below_top(t):
+    """does the tree contain a negative constant as a part of a concatenation (its two's complement sign bits must not
+    reach the parts above it, nor the bits above the concatenation)"""
+    if t[0] == "c":
+        return False
+    if t[0] == "cat":
+        return any((p[0] == "c" and p[1] < 0) or neg_const_below_top(p) for p in t[1])
+    return neg_const_below_top(t[1])
+
+
+def wrap_to(v, w, sg):
+    v &= (1 << w) - 1
+    if sg and w and v >> (w - 1):
+        v -= 1 << w
+    return v
+
+
+def run_trees_evaluated(chk, quick, sec, accepted):
+    """"constant-casting a concatenation or slice of constants equals evaluating it": every accepted tree is evaluated
+    (a) by a compiled circuit - `m.d.comb += target.eq(tree)` for an unsigned target of exactly the tree's width and for a
+    wider target (unsigned / signed alternately), read in simulation - and (b) by `ctx.get(tree)` in a testbench; all
+    three readings are compared with the value the driver's Spec gives for the tree (not with Const.cast's)."""
+    from amaranth.hdl import Module, Signal, Shape
+    from amaranth.sim import Simulator
+    todo = accepted if quick else accepted[:30000]
+    extra = (1, 2, 3, 7, 33)
+    batch = 250
+    nrun = 0
+    nviol = [0]
+
+    def violation(msg, rep):
+        nviol[0] += 1
+        if nviol[0] <= 10:
+            chk.violation(msg, rep)
+        else:
+            chk.hist("tree_evaluated", "further violations (not listed)")
+    for b0 in range(0, len(todo), batch):
+        m = Module()
+        items = []
+        for n, (idx, t, e, c) in enumerate(todo[b0:b0 + batch], start=b0):
+            parts = (sec.last[idx].get("spec") or "").split(",")
+            if len(parts) != 3:
+                continue            # the Spec does not call it a constant: reported by the const-cast section already
+            v, w, sg = int(parts[0]), int(parts[1]), parts[2] == "s"
+            same = Signal(Shape(w, False), name=f"same{n}")
+            wsg = n % 2 == 1
+            wide = Signal(Shape(w + extra[n % len(extra)], wsg), name=f"wide{n}")
+            m.d.comb += [same.eq(e), wide.eq(e)]
+            # the tree has the value v of shape (w, sg); assignment extends by the tree's signedness, then truncates
+            items.append((t, e, c, v, [("same-width unsigned", same, wrap_to(v, w, False)),
+                                       ("wider " + ("signed" if wsg else "unsigned"), wide,
+                                        wrap_to(v, len(wide), wsg))]))
+        got = {}
+
+        async def tb(ctx):
+            for k, (_t, e, _c, _v, targets) in enumerate(items):
+                got[k] = [ctx.get(e)] + [ctx.get(sig) for _n, sig, _x in targets]
+
+        def simulate():
+            with warnings.catch_warnings():
+                warnings.simplefilter("ignore")
+                sim = Simulator(m)
+                sim.add_testbench(tb)
+                sim.run()
+        _v, err = guarded(simulate)
+        if err is not None:
+            chk.violation(f"const-cast-evaluated: simulating a design that assigns {len(items)} Cat/Slice trees of constants "
+                          f"raises {err}", {"section": "const-cast-evaluated", "error": err,
+                                            "trees": [repr(it[1])[:200] for it in items[:5]], "classes": []})
+            continue
+        for k, (t, e, c, v, targets) in enumerate(items):
+            nrun += 1
+            chk.hist("tree_evaluated", "trees")
+            if neg_const_below_top(t):
+                chk.hist("tree_evaluated", "trees with a negative constant as a part of a Cat")
+            r = got.get(k) or [None] * (1 + len(targets))
+            if r[0] != v:
+                violation(f"const-cast-evaluated: ctx.get({e!r}) gives {r[0]}, property requires {v} "
+                              f"(Const.cast: {c.value})",
+                              {"section": "const-cast-evaluated", "how": "ctx.get", "expr": repr(e)[:600], "impl": r[0],
+                               "spec": v, "cast": c.value, "classes": []})
+            for (tname, sig, want), have in zip(targets, r[1:]):
+                chk.hist("tree_evaluated_target", tname)
+                if have != want:
+                    violation(f"const-cast-evaluated: compiled `m.d.comb += Signal({sig.shape()!r}).eq({e!r})` reads "
+                                  f"{have}, property requires {want} (tree value {v}, Const.cast: {c.value})",
+                                  {"section": "const-cast-evaluated", "how": "comb assignment, " + tname,
+                                   "target": repr(sig.shape()), "expr": repr(e)[:600], "impl": have, "spec": want,
+                                   "tree_value": v, "cast": c.value, "classes": []})
+                    break
+    chk.count(3 * nrun)
+    chk.extra.setdefault("exhaustive", {})["const-cast-evaluated"] = \
+        (f"{nrun} of the accepted Cat/Slice/Const trees of the const-cast stream, each assigned in m.d.comb to an unsigned "
+         f"target of its own width and to a target 1/2/3/7/33 bits wider (unsigned and signed alternately), {batch} trees per "
+         f"Simulator, and read with ctx.get(tree); expected values from the driver's Spec")
+
+
 def run_trees(chk, quick):
     from amaranth.hdl import Const
     sec = Section(chk, "const-cast")
     rng = chk.rng
     ntree = 4000 if quick else 250000
     exprs = []
+    accepted = []
     for i in range(ntree):
         t = gen_tree(rng, rng.randrange(1, 5), allow_bad=(i % 10 == 0))
         e = build_tree(t)
         val, err = guarded(lambda: Const.cast(e))
         impl = f"{val.value},{shs(val.shape())}" if err is None else err
         req = f"(cast {common.ser_value(e, {})})"
-        sec.add(req, impl, repr(e)[:300], nontrivial=t[0] != "c")
+        idx = sec.add(req, impl, repr(e)[:300], nontrivial=t[0] != "c")
         chk.hist("tree_depth", tree_depth(t))
         chk.hist("tree_root", t[0])
         chk.hist("tree_outcome", "ok" if err is None else err)
         if err is None:
             exprs.append((e, val))
+            accepted.append((idx, t, e, val))
         if i < 3:
             chk.sample({"tree": repr(e)[:200], "Const.cast": impl})
     sec.flush()
+    run_trees_evaluated(chk, quick, sec, accepted)
     # the evaluated constant is also what the simulator reads for the tree (cross-check, real code only)
     from amaranth.hdl import Module
     from amaranth.sim import Simulator
@@ -1190,7 +1290,9 @@ def run(chk):
     run_layouts(chk, quick, eshapes)
     chk.cov["rule"] = ("small domains enumerated completely (see coverage.exhaustive), large values sampled around powers of two "
                        "from the seeded PRNG; a case is distinct by its driver request, non-trivial unless it is an empty enum, "
-                       "a bare Const tree or an absent initial value; memory rows assigned after construction, enumeration "
+                       "a bare Const tree or an absent initial value; every accepted Cat/Slice tree of constants is also "
+                       "evaluated by a compiled circuit (comb assignment to a target of its width and to a wider one) and by "
+                       "ctx.get, against the Spec value; memory rows assigned after construction, enumeration "
                        "hierarchies with varied cast order and layout constants are random streams described abstractly "
                        "(integers only) and distinct by (case, step)")
     chk.assumptions += [
